@@ -781,6 +781,7 @@ def s_contains(I, callee, args, st, n, fidx):
 
 CHAR_PREDS = {
     "std::char::methods::is_whitespace": "is_whitespace",
+    "std::char::methods::is_ascii_whitespace": "is_ascii_whitespace",
     "std::char::methods::is_ascii_digit": "is_ascii_digit",
     "std::char::methods::is_ascii": "is_ascii",
     "std::char::methods::is_ascii_hexdigit": "is_ascii_hexdigit",
